@@ -290,6 +290,8 @@ def sess_step(s, objs, lists):
         else:
             f = getattr(pg, c['op'] + '_')
             kw = dict(join=c['join'], columns=c['cols'])
+            if c.get('m', 'none') != 'none':
+                kw['method'] = METHODS[c['m']]
         err, res = outcome(lambda: f(*args, **kw))
         out = err if err is not None else {'kind': 'val', 'v': proj(res)}
     elif s['act'] == 'append':
@@ -298,48 +300,68 @@ def sess_step(s, objs, lists):
         lists[s['l'] - 1].pop()
     elif s['act'] == 'poke':
         objs[s['o'] - 1].iloc[0] = float('nan')
+    elif s['act'] in EDITS:
+        edit_in_place(objs[s['o'] - 1], s)
     else:
         raise ValueError(s)
     return out, sess_view(objs, lists)
 
 
+EDITS = ['shift', 'restamp', 'rename', 'reorder', 'pokes']        # OpsSession!ShapeKeeping: the object and its shape stay
+
+
+def edit_in_place(ob, s):
+    """the caller's in-place edit s of its own timeseries ob (rendering of OpsSession!Apply)"""
+    import pandas as pd
+    shape, act = ob.shape, s['act']
+    if act == 'shift':
+        ob.index = ob.index + pd.Timedelta(days=s['x'])
+    elif act == 'restamp':
+        idx = list(ob.index)
+        idx[s['x'] - 1] = idx[s['x'] - 1] + pd.Timedelta(days=1)
+        ob.index = pd.DatetimeIndex(idx)
+    elif act == 'rename':
+        ob.rename(columns={s['p'][0]: s['p'][1]}, inplace=True)
+    elif act == 'reorder':                      # the first physical column becomes the last
+        name = ob.columns[0]
+        col = ob.pop(name)
+        ob[name] = col
+    elif act == 'pokes':
+        v = float('nan') if s['x'] == 0 else 0.0
+        if ob.ndim == 1:
+            ob.iloc[0::2] = v
+        else:
+            ob.iloc[0::2, list(ob.columns).index(sorted(ob.columns)[0])] = v
+    if ob.shape != shape:
+        raise ValueError('the edit %s changed the shape' % act)
+
+
 def spelled(s):
     ref = lambda r: {'o': 'o%d', 'l': 'L%d', 'none': ''}[r['r']] % ((r['i'],) if r['r'] != 'none' else ())
     if s['act'] != 'call':
-        return '%s(%s)' % (s['act'], ','.join(x for x in ['L%d' % s['l'] if s['l'] else '', 'o%d' % s['o'] if s['o'] else ''] if x))
+        extra = [str(s['x'])] if s['act'] in ('shift', 'restamp', 'pokes') else ['->'.join(seq(s.get('p')))] if s['act'] == 'rename' else []
+        return '%s(%s)' % (s['act'], ','.join(x for x in ['L%d' % s['l'] if s['l'] else '', 'o%d' % s['o'] if s['o'] else ''] + extra if x))
     c = s['c']
     name = ('df_' + c['op']) if c['op'] in AGGS else c['op'] + '_'
-    return '%s(%s)' % (name, ','.join(x for x in [ref(c['a']), ref(c['b'])] if x))
+    pol = [c['join']] if c['op'] not in AGGS else []
+    return '%s(%s)' % (name, ','.join(x for x in [ref(c['a']), ref(c['b'])] + pol + ([c['cols']] if c['cols'] != 'ij' else []) + (['method=' + c['m']] if c.get('m', 'none') != 'none' else []) if x))
 
 
-def sess_case(heap, steps, k, out=None):
-    """the failing step k (0-based) of a history as a matchable case"""
+def sess_case(heap, steps, k, out=None, at=None):
+    """the failing step k (0-based) of a history as a matchable case (at: the heap at that step, as TLC printed it
+    resp. as the caller saw it after the step before)"""
     s = steps[k]
     c = s['c']
-    h = heap
-    for t in steps[:k]:
-        h = caller_view(h, t)
+    h = at or heap
     ids = [i for r in (c['a'], c['b']) for i in ([r['i']] if r['r'] == 'o' else seq(h['lists'][r['i'] - 1]['ids']) if r['r'] == 'l' else [])] if s['act'] == 'call' else []
     xs = [h['objs'][i - 1] for i in ids]
     classes = [shape_class(x) for x in xs]
     ts = sorted(set(cl for cl in classes if cl != 'c'))
+    edits = sorted(set(t['act'] for t in steps[:k] if t['act'] in EDITS + ['poke']))
     return {'op': c['op'] if s['act'] == 'call' else s['act'], 'form': 'session:' + c['a']['r'] + '-' + c['b']['r'], 'join': c['join'], 'cols': c['cols'],
+            'method': c.get('m', 'none'), 'edited_in_place_before': ','.join(edits),
             'shapes': ','.join(classes), 'mixed_shapes': len(ts) > 1, 'raised': (out or {}).get('cls', ''), 'step': k + 1,
             'history': [spelled(t) for t in steps], 'heap': heap, 'steps': steps}
-
-
-def caller_view(h, s):
-    """the caller's own bookkeeping of what it did to its lists (rendering of a recorded history, not a judgement)"""
-    if s['act'] == 'call':
-        return h
-    h = json.loads(json.dumps(h))
-    if s['act'] == 'append':
-        h['lists'][s['l'] - 1]['ids'] = seq(h['lists'][s['l'] - 1]['ids']) + [s['o']]
-    elif s['act'] == 'pop':
-        h['lists'][s['l'] - 1]['ids'] = seq(h['lists'][s['l'] - 1]['ids'])[:-1]
-    elif s['act'] == 'poke':
-        h['objs'][s['o'] - 1]['v'][0] = ["nan", 0]
-    return h
 
 
 def norm_heap(h):
@@ -360,18 +382,19 @@ def s2c_sessions(ctx, report, hists, budget, fam):
         for k, h in enumerate(x['hist']):
             out, view = sess_step(h['s'], objs, lists)
             ctx.evals += 1
+            case = lambda: sess_case(x['heap'], steps, k, out, at=norm_heap(h['h']))
             want_heap = norm_heap(h['h'])
             want = [collapse(w) for w in seq(h['want'])]
             if view['lists'] != want_heap['lists']:
-                report('container_changed', sess_case(x['heap'], steps, k, out), {'expected': want_heap['lists'], 'observed': view['lists']})
+                report('container_changed', case(), {'expected': want_heap['lists'], 'observed': view['lists']})
             elif view['objs'] != want_heap['objs']:
-                report('operand_changed', sess_case(x['heap'], steps, k, out), {'observed': view['objs']})
+                report('operand_changed', case(), {'observed': view['objs']})
             elif out is None:
                 continue
             elif out['kind'] == 'exc':
-                report('raised', sess_case(x['heap'], steps, k, out), {'expected_one_of': h['want'], 'observed': out})
+                report('raised', case(), {'expected_one_of': h['want'], 'observed': out})
             elif collapse(out['v']) not in want:
-                report('result', sess_case(x['heap'], steps, k, out), {'expected_one_of': h['want'], 'observed': out['v']})
+                report('result', case(), {'expected_one_of': h['want'], 'observed': out['v']})
             else:
                 continue
             ok = False
@@ -408,7 +431,7 @@ def rand_heap(rng):
     return fam, {'objs': objs, 'lists': lists}
 
 
-def rand_call(rng, fam, h):
+def rand_call(rng, fam, h, ab=None):
     """a call on the heap h in some calling form, inside the domain of the statement as far as the driver can tell
     (the trace specification decides: a step it finds outside the domain is not judged); None: try again"""
     ops = {'arith': ['add', 'sub', 'mul', 'div', 'min', 'max', 'sum', 'count'] + CMPS[:2],
@@ -417,6 +440,8 @@ def rand_call(rng, fam, h):
     refs = [{'i': i + 1, 'r': 'o'} for i in range(len(h['objs']))] + [{'i': i + 1, 'r': 'l'} for i in range(len(h['lists']))] * 2
     a = rng.choice(refs)
     b = {'i': 0, 'r': 'none'} if op not in CUTS + CMPS and a['r'] == 'l' and rng.random() < 0.3 else rng.choice(refs)
+    if ab is not None:                  # the arguments of an earlier call, under whatever operator / policy / method comes up
+        a, b = ab
     ids = [i for r in (a, b) for i in ([r['i']] if r['r'] == 'o' else h['lists'][r['i'] - 1]['ids'] if r['r'] == 'l' else [])]
     xs = [h['objs'][i - 1] for i in ids]
     if not 2 <= len(xs) <= 4 or all(x['k'] == 'c' for x in xs):
@@ -434,26 +459,52 @@ def rand_call(rng, fam, h):
     cols = pick_cols(rng, op, xs)
     if cols is None:
         return None
-    return {'act': 'call', 'c': {'a': a, 'b': b, 'cols': cols, 'join': 'oj' if op in AGGS else rng.choice(['ij', 'oj']), 'op': op}, 'l': 0, 'o': 0}
+    m = rng.choice(['ffill', 'bfill', 'v0', 'v1']) if len(xs) == 2 and op not in AGGS and rng.random() < 0.2 else 'none'
+    return {'act': 'call', 'c': {'a': a, 'b': b, 'cols': cols, 'join': 'oj' if op in AGGS else rng.choice(['ij', 'oj']), 'm': m, 'op': op},
+            'l': 0, 'o': 0, 'p': [], 'x': 0}
 
 
-def rand_caller_step(rng, h):
+def rand_caller_step(rng, h, used):
+    """something the caller does to its own objects (the trace specification decides whether it is in the domain);
+    the in-place edits go to an operand of the last call"""
     pylists = [i + 1 for i, l in enumerate(h['lists']) if l['k'] == 'l']
-    kind = rng.choice(['append', 'append', 'pop', 'poke'])
+    step = lambda act, l=0, o=0, x=0, p=(): {'act': act, 'c': NOCALL, 'l': l, 'o': o, 'p': list(p), 'x': x}
+    kind = rng.choice(['append', 'pop', 'poke', 'shift', 'shift', 'restamp', 'restamp', 'rename', 'reorder', 'pokes'])
     if kind == 'append' and pylists:
-        return {'act': 'append', 'c': NOCALL, 'l': rng.choice(pylists), 'o': rng.randint(1, len(h['objs']))}
+        return step('append', l=rng.choice(pylists), o=rng.randint(1, len(h['objs'])))
     if kind == 'pop':
         full = [i for i in pylists if h['lists'][i - 1]['ids']]
         if full:
-            return {'act': 'pop', 'c': NOCALL, 'l': rng.choice(full), 'o': 0}
+            return step('pop', l=rng.choice(full))
     if kind == 'poke':
         ok = [i + 1 for i, o in enumerate(h['objs']) if o['k'] == 's' and o['v'] and o['v'][0][0] != 'nan']
         if ok:
-            return {'act': 'poke', 'c': NOCALL, 'l': 0, 'o': rng.choice(ok)}
+            return step('poke', o=rng.choice(ok))
+    tss = [i for i in used if h['objs'][i - 1]['k'] in ('s', 'f') and h['objs'][i - 1]['t']]
+    if kind in ('shift', 'restamp', 'pokes') and tss:
+        o = rng.choice(tss)
+        t = h['objs'][o - 1]['t']
+        if kind == 'shift':
+            return step('shift', o=o, x=1 if t[0] == 1 else rng.choice([1, -1]))
+        if kind == 'pokes':
+            return step('pokes', o=o, x=rng.choice([0, 1]))
+        free = [i + 1 for i in range(len(t)) if i == len(t) - 1 or t[i + 1] > t[i] + 1]
+        return step('restamp', o=o, x=rng.choice(free))
+    frames = [i for i in used if h['objs'][i - 1]['k'] == 'f' and len(h['objs'][i - 1]['c']) > 1]
+    if kind in ('rename', 'reorder') and frames:
+        o = rng.choice(frames)
+        if kind == 'reorder':
+            return step('reorder', o=o)
+        cols = h['objs'][o - 1]['c']
+        return step('rename', o=o, p=(rng.choice(cols), rng.choice([c for c in ['a', 'b', 'c', 'd', 'e'] if c not in cols])))
     return None
 
 
-NOCALL = {'a': {'i': 0, 'r': 'none'}, 'b': {'i': 0, 'r': 'none'}, 'cols': 'ij', 'join': 'ij', 'op': ''}
+NOCALL = {'a': {'i': 0, 'r': 'none'}, 'b': {'i': 0, 'r': 'none'}, 'cols': 'ij', 'join': 'ij', 'm': 'none', 'op': ''}
+
+
+def ids_of(h, c):
+    return [i for r in (c['a'], c['b']) for i in ([r['i']] if r['r'] == 'o' else seq(h['lists'][r['i'] - 1]['ids']) if r['r'] == 'l' else [])]
 
 
 def c2s_sessions(ctx, report, n):
@@ -467,11 +518,18 @@ def c2s_sessions(ctx, report, n):
         h, steps = heap, []
         for _k in range(rng.choice([3, 4, 5, 6])):
             s = None
-            if steps and steps[-1]['s']['act'] == 'call' and rng.random() < 0.3:
-                s = rand_caller_step(rng, h)
-            if s is None and steps and rng.random() < (0.6 if steps[-1]['s']['act'] != 'call' else 0.2):
-                s = [t['s'] for t in steps if t['s']['act'] == 'call'][-1]          # the same call once more (the caller may have changed its objects since)
+            calls = [t['s'] for t in steps if t['s']['act'] == 'call']
+            if steps and steps[-1]['s']['act'] == 'call' and rng.random() < 0.4:
+                s = rand_caller_step(rng, h, ids_of(h, calls[-1]['c']))
+            if s is None and steps and rng.random() < (0.8 if steps[-1]['s']['act'] != 'call' else 0.2):
+                s = calls[-1]                                                       # the same call once more (the caller may have changed its objects since)
                 s = s if rand_ok_again(h, s) else None
+                if s is not None and rng.random() < 0.6:                            # ... or the same arguments under another operator / policy / method
+                    for _try in range(10):
+                        v = rand_call(rng, fam, h, ab=(s['c']['a'], s['c']['b']))
+                        if v is not None:
+                            s = v
+                            break
             for _try in range(20):
                 if s is not None:
                     break
@@ -481,7 +539,7 @@ def c2s_sessions(ctx, report, n):
             out, view = sess_step(s, objs, lists)
             ctx.evals += 1
             steps.append({'s': s, 'view': view, 'out': out if out is not None else {'kind': 'none'}})
-            h = caller_view(h, s)
+            h = view                        # what the caller holds now, as it sees it
         if steps:
             obs.append({'heap': heap, 'steps': steps})
     bad = []
@@ -495,7 +553,7 @@ def c2s_sessions(ctx, report, n):
         if clause == 'outside_domain':          # the specification decides what the statement speaks about: not judged
             outside += 1
             continue
-        report(clause, sess_case(o['heap'], [t['s'] for t in o['steps']], k, o['steps'][k]['out']),
+        report(clause, sess_case(o['heap'], [t['s'] for t in o['steps']], k, o['steps'][k]['out'], at=o['steps'][k - 1]['view'] if k else o['heap']),
                {'observed': o['steps'][k]['out'], 'heap_after_step': o['steps'][k]['view']})
     if outside * 10 > len(obs):
         raise Machinery('vacuous: %d of %d recorded sessions contain a step outside the domain of OpsSession!SessDomain' % (outside, len(obs)))
@@ -531,6 +589,7 @@ def sessions(ctx, report):
             raise Machinery('vacuous: no generated history of MC_OpsSession_quick.cfg contains a call of the form %s' % need)
     if ctx.quick:
         s2c_sessions(ctx, report, snaps, 1200, 'two-calls')
+        s2c_sessions(ctx, report, edit_sessions(ctx, 'MC_OpsSession_edits.cfg', 300, 7), 0, 'edited-in-place')
         c2s_sessions(ctx, report, 300)
     else:
         s2c_sessions(ctx, report, snaps, 0, 'two-calls')
@@ -539,8 +598,35 @@ def sessions(ctx, report):
         ctx.mc('MC_OpsSession', 'MC_OpsSession_extend.cfg', must_fail='PoolUntouched', coverage=False)
         s2c_sessions(ctx, report, ctx.generate('MC_OpsSession', 'MC_OpsSession_gen2t.cfg'), 6000, 'two-calls-all-heaps')
         s2c_sessions(ctx, report, ctx.generate('MC_OpsSession', 'MC_OpsSession_gen3.cfg'), 8000, 'call-caller-probe')
-        s2c_sessions(ctx, report, ctx.generate('MC_OpsSession', 'MC_OpsSession_sim.cfg', simulate=300, depth=7, seed=ctx.seed + 1, workers=1), 0, 'simulated')
+        ctx.mc('MC_OpsSession', 'MC_OpsSession_edits3.cfg', coverage=False)      # (the actions of the other configurations are switched off here)
+        s2c_sessions(ctx, report, edit_sessions(ctx, 'MC_OpsSession_edits.cfg', 2500, 7), 0, 'edited-in-place')
+        s2c_sessions(ctx, report, edit_sessions(ctx, 'MC_OpsSession_sim.cfg', 400, 8, need=False), 0, 'simulated')
         c2s_sessions(ctx, report, 3000)
+
+
+def edit_sessions(ctx, cfg, n, depth, need=True):
+    """histories drawn by TLC's simulator from the machine with the calls on two objects, the variants of the last call and the
+    caller's shape-keeping edits; every kind of edit must be followed by a call of every operator family somewhere"""
+    from harness.core import Machinery
+    hists = ctx.generate('MC_OpsSession', cfg, simulate=n, depth=depth, seed=ctx.seed + 1, workers=1)
+    uniq = {json.dumps(x, sort_keys=True): x for x in hists}          # (the simulator evaluates a complete history more than once)
+    hists = [uniq[k] for k in sorted(uniq)]
+    family = lambda op: 'arith' if op in ('add', 'sub', 'mul', 'div', 'pow') else 'cmp' if op in CMPS else 'minmax' if op in ('min', 'max') else 'agg'
+    taken = set()
+    for x in hists:
+        steps = [h['s'] for h in x['hist']]
+        for k in range(1, len(steps)):
+            if steps[k]['act'] == 'call' and steps[k - 1]['act'] in EDITS:
+                c = steps[k]['c']
+                taken.add((steps[k - 1]['act'], family(c['op'])))
+                taken.add((steps[k - 1]['act'], 'join=' + c['join']))
+                taken.add((steps[k - 1]['act'], 'cols=' + c['cols']))
+                if c['a']['r'] == 'o' and c['b']['r'] == 'o' and c['a']['i'] != c['b']['i']:
+                    taken.add((steps[k - 1]['act'], 'two-objects'))
+    missing = [(e, f) for e in EDITS for f in ('arith', 'cmp', 'minmax', 'agg', 'join=ij', 'join=oj', 'cols=ij', 'cols=oj', 'two-objects') if (e, f) not in taken]
+    if need and missing:
+        raise Machinery('vacuous: no simulated history of %s has a call of kind %s right after the in-place edit' % (cfg, missing[:6]))
+    return hists
 
 
 def replay(ctx, body):
@@ -555,7 +641,7 @@ def replay(ctx, body):
         bad = ctx.validate('Trace_OpsSession', [{'heap': c['heap'], 'steps': steps}], cfg='Trace_OpsSession.cfg')
         print(json.dumps({'history': c['history'], 'observed': [t['out'] for t in steps], 'verdict': bad[0][1] if bad else 'explained by the specification'})[:3000])
         return 1 if bad else 0
-    o = call(c['op'], c['xs'], c['form'], c['join'], c['cols'])
+    o = call(c['op'], c['xs'], c['form'], c['join'], c['cols'], m=c.get('method', 'none'))
     bad = ctx.validate('Trace_Ops', [o])
     print(json.dumps({'observed': o['out'], 'verdict': bad[0][1] if bad else 'explained by the specification'})[:3000])
     return 1 if bad else 0
@@ -572,12 +658,17 @@ def run(ctx):
     ctx.exhaustive = True
     if ctx.quick:
         ctx.mc('MC_Ops', 'MC_Ops_quick.cfg')
+        ctx.mc('MC_Ops', 'MC_Ops_law.cfg')
         s2c(ctx, report, ctx.generate('MC_Ops', 'MC_Ops_gen_quick.cfg'), 7000)
         s2c(ctx, report, ctx.generate('MC_Ops', 'MC_Ops_gen_frames.cfg'), 3000)
+        s2c(ctx, report, ctx.generate('MC_Ops', 'MC_Ops_gen_fill.cfg'), 1500)
         c2s(ctx, report, 2500)
         sessions(ctx, report)
     else:
         ctx.mc('MC_Ops', 'MC_Ops_thorough.cfg')
+        ctx.mc('MC_Ops', 'MC_Ops_law3.cfg')
+        s2c(ctx, report, ctx.generate('MC_Ops', 'MC_Ops_gen_fill3.cfg'), 20000)
+        s2c(ctx, report, ctx.generate('MC_Ops', 'MC_Ops_gen_fillframes.cfg'), 10000)
         s2c(ctx, report, ctx.generate('MC_Ops', 'MC_Ops_gen_quick.cfg'), 60000)
         s2c(ctx, report, ctx.generate('MC_Ops', 'MC_Ops_gen_frames.cfg'), 40000)
         s2c(ctx, report, ctx.generate('MC_Ops', 'MC_Ops_gen_thorough.cfg'), 80000)
